@@ -48,7 +48,7 @@ def latches_guarded(a, lp, edges):
     head, blks = lp
     latches = [(x, head) for x in blks if head in a.cfg.succ[x]]
     r = a.cfg.reach([head], cut_edges=set(edges) | set(latches))
-    return bool(edges) and not any(x in r for (x, _) in latches)
+    return bool(edges) and not any(x in r and (x, h) not in set(edges) for (x, h) in latches)
 
 
 def is_query_elem(e, pname, idx_pred):
